@@ -12,6 +12,8 @@ A node is a dict:
            ("slot", v) | ("pvalue", p, [copies]) | ("pindex", idx, [(i, ("slot", v) | ("node", m)), ...], dflt)
                                                                      Integer Float
   pvalue, vars          converters / swiss knives
+  accs                  None | one accessor suffix per variable: "" ".Value" ".Min" ".Max" ".Inc" ".Enum.E0"
+                        (<pVariable Name="V0.Max">N3</pVariable>: the variable stands for a sub-property of N3)
   on, off               Boolean
   entries               Enumeration: list of entry values
   mapped, init          register kinds: address inside the device memory?  initial decoded content
@@ -27,6 +29,7 @@ STRING_KINDS = ("String", "StringReg")
 REG_KINDS = ("IntReg", "MaskedIntReg", "FloatReg", "StringReg", "Register")
 NUMERIC = INT_KINDS + FLOAT_KINDS + ("Enumeration",)
 VARKINDS = NUMERIC + ("Boolean",)
+ACCESSORS = ("", ".Value", ".Min", ".Max", ".Inc", ".Enum.E0")
 ALL_KINDS = INT_KINDS + FLOAT_KINDS + STRING_KINDS + ("Boolean", "Command", "Enumeration", "Register")
 
 BASE = 0x1000
@@ -35,7 +38,7 @@ REG_LEN = {"IntReg": 4, "MaskedIntReg": 4, "FloatReg": 8, "StringReg": 4, "Regis
 
 def node(kind, **kw):
     d = dict(kind=kind, imposed=None, access=None, impl=None, avail=None, lock=None, value=None, pvalue=None,
-             vars=[], on=1, off=0, entries=[0, 1, 2, 3], mapped=True, init=0)
+             vars=[], accs=None, on=1, off=0, entries=[0, 1, 2, 3], mapped=True, init=0)
     d.update(kw)
     return d
 
@@ -81,6 +84,11 @@ def addr_of(g, i):
     return BASE + 8 * i if n["mapped"] else BASE + 8 * len(g) + 0x100 + 8 * i
 
 
+def var_xml(n):
+    accs = n.get("accs") or [""] * len(n["vars"])
+    return "".join(X.el("pVariable", nm(v), Name="V%d%s" % (j, accs[j])) for j, v in enumerate(n["vars"]))
+
+
 def node_xml(g, i):
     n = g[i]
     k = n["kind"]
@@ -104,12 +112,10 @@ def node_xml(g, i):
         v = n["value"]
         s += X.el("Value", "s%d" % v[1]) if v[0] == "slot" else X.el("pValue", nm(v[1]))
     elif k in ("IntConverter", "Converter"):
-        for j, v in enumerate(n["vars"]):
-            s += X.el("pVariable", nm(v), Name="V%d" % j)
+        s += var_xml(n)
         s += X.el("FormulaTo", "FROM") + X.el("FormulaFrom", "TO") + X.el("pValue", nm(n["pvalue"]))
     elif k in ("IntSwissKnife", "SwissKnife"):
-        for j, v in enumerate(n["vars"]):
-            s += X.el("pVariable", nm(v), Name="V%d" % j)
+        s += var_xml(n)
         s += X.el("Formula", "1")
     elif k in REG_KINDS:
         s += X.el("Address", addr_of(g, i)) + X.el("Length", REG_LEN[k])
@@ -278,6 +284,8 @@ class Sim:
         if k in ("IntReg", "MaskedIntReg", "FloatReg"):
             return self.leaf(n, 0)
         if k in ("IntSwissKnife", "SwissKnife"):
+            if any(a not in ("", ".Value") for a in (nd.get("accs") or [])):
+                raise Unsupported()          # Min / Max / Inc / Enum of the variables are not simulated
             for m in nd["vars"]:             # the formula is the constant 1, but every variable is collected first
                 self.var_value(m)
             return 1
